@@ -79,6 +79,8 @@ def _case(draw, tier):
         "learner": draw(st.sampled_from(["svc", "perc", "perc", "lin"])),
         "dedup": draw(st.sampled_from([True, True, False])),
         "rollup": draw(st.sampled_from([True, True, False])),
+        "whole_feature": draw(st.sampled_from([False, True])),
+        "key_gap": draw(st.sampled_from([False, False, True])),
         "B": {
             "chunks": chunks,
             "workers": workers,
@@ -101,6 +103,22 @@ def _frame(case):
             df[c] = df[c].round(5)
     if "ExpMass" in df:
         df["ExpMass"] = df["ExpMass"].round(4)
+    if case.get("whole_feature"):
+        # a mostly whole-valued feature (isotope error, missed cleavages ...) written compactly in text files ("2", not "2.0");
+        # the few fractional values come late in the file, so early chunks of a text reader look like integers
+        rng = np.random.default_rng(case["seed"] + 17)
+        n = len(df)
+        v = rng.integers(0, 4, n).astype(float)
+        late = np.arange(n) >= (2 * n) // 3
+        v = np.where(late & (rng.random(n) < 0.3), v + 0.5, v)
+        pos = list(df.columns).index("rid") if "rid" in df.columns else list(df.columns).index("Peptide")
+        df.insert(pos, "isoErr", v)
+        feats = [f for f in meta["features"] if f != "rid"] + ["isoErr"] + (["rid"] if "rid" in meta["features"] else [])
+        meta = {**meta, "features": feats}
+    if case.get("key_gap") and "ExpMass" in df:
+        # the measured mass is missing for some spectra (all PSMs of such a spectrum lack it)
+        gap = (df["ScanNr"].values % 7) == 0
+        df["ExpMass"] = df["ExpMass"].where(~gap, np.nan)
     return df, meta
 
 
@@ -111,7 +129,11 @@ def _run(case, cfg, tmp, df):
     config_inject.install_pep_stub()
     ext = ".parquet" if cfg["fmt"] == "parquet" else ".pin"
     path = tmp / f"data{ext}"
-    datagen.write_table(df, path, row_group=cfg.get("row_group"))
+    wdf = df
+    if ext == ".pin" and "isoErr" in df.columns:
+        wdf = df.copy()
+        wdf["isoErr"] = [("%d" % v) if float(v).is_integer() else repr(float(v)) for v in df["isoErr"]]
+    datagen.write_table(wdf, path, row_group=cfg.get("row_group"))
     out = tmp / "out"
     out.mkdir()
     res = {}
@@ -184,7 +206,7 @@ def check(case):
     require(list(sa.columns) == list(sb.columns) and len(sa) == len(sb), "parsed-differs", "spectra frame shape")
     for c in sa.columns:
         if sa[c].dtype.kind == "f":
-            require(bool(np.allclose(sa[c].values, sb[c].values.astype(float), rtol=1e-9, atol=0)), "parsed-differs", f"spectra column {c}")
+            require(bool(np.allclose(sa[c].values, sb[c].values.astype(float), rtol=1e-9, atol=0, equal_nan=True)), "parsed-differs", f"spectra column {c}")
         else:
             require(sa[c].astype(str).tolist() == sb[c].astype(str).tolist(), "parsed-differs", f"spectra column {c} (values or row order)")
     # ---- scores ------------------------------------------------------------------
@@ -247,5 +269,9 @@ def check(case):
     if not case["dedup"]:
         classes.append("dedup-off")
     classes.append(case["learner"])
+    if case.get("whole_feature"):
+        classes.append("whole-valued-feature-written-compactly")
+    if case.get("key_gap") and case["key"] >= 2:
+        classes.append("spectrum-key-with-missing-values")
     nontrivial = bool(set(small) & {"predict", "confidence", "readall"}) or "delays" in classes or "multi-row-group" in classes
     return {"nontrivial": nontrivial, "classes": classes, "counters": {"files_compared": len(A["files"]), "scores_compared": n, "tie_ambiguous_files": tie_ambiguous}}
